@@ -163,7 +163,8 @@ PROPS = {
     },
     "C12": {
         "title": "Results do not depend on storage, memory-manager or deletion policy",
-        "rules": [on_program(rules_storage.rule_chunkptr), on_program(rules_storage.rule_layout), callers_for("C12"), on_program(rules_canon.rule_hash)],
+        "rules": [on_program(rules_storage.rule_chunkptr), on_program(rules_storage.rule_layout), callers_for("C12"), on_program(rules_canon.rule_hash),
+                  on_program(rules_sibling.rule_small_hole_threshold)],
         "explanation": STRUCTURAL + ". C12: stale-chunk-pointer clause (a pointer from getChunkAddress is not used after a call that can reach requestChunk — a bug of exactly that shape shows under the reallocating managers and not under malloc style) "
                        "and layout clause (full-only, sparse-only and either-form writers and readers of a packed node agree on the region bases and on the hash recipe, so the storage flag cannot change what is read back).",
         "assumptions": ["the relational statement itself (same results under every policy combination) is a hyper-property over configurations and is not decided",
@@ -198,7 +199,7 @@ PROPS = {
     },
     "C15": {
         "title": "Index sets number the members of a set 0..n-1 in lexicographic order",
-        "rules": [rules_orphan.rule_terminal_root, on_program(rules_codec.rule_header_type)],
+        "rules": [rules_orphan.rule_terminal_root, on_program(rules_codec.rule_header_type), rules_orphan.rule_index_width],
         "explanation": STRUCTURAL + ". C15: the lookup-failure clause (an index lookup that runs into a terminal must fail, not unpack it) and the cardinality-header clause (every accessor of the index-set cardinality header uses one element type).",
         "assumptions": ["the numbering itself (offsets accumulated as edge values) is not decided"],
         "technique": "def-to-use path rule over clang CFGs (non-terminal arm of a handle test must be crossed before unpacking); writer/reader element-type agreement",
